@@ -1,10 +1,10 @@
 #!/bin/bash
-# usage: tools/eval_seeded.sh <outdir of agent> <PID> <i> <check> [<check>...]
+# usage: [AS=<stored index>] tools/eval_seeded.sh <outdir of agent | stored> <PID> <i> <check> [<check>...]
 # Confirms a seeded change (applies, test-suite green, demo fails with / passes without), stores it under
 # /verif/seeded/<PID>-<i>/ and runs the given checks against it in a scratch copy.
 set -u
 SRC=$1; PID=$2; I=$3; shift 3
-D=/verif/seeded/$PID-$I
+D=/verif/seeded/$PID-${AS:-$I}
 mkdir -p $D
 if [ "$SRC" != stored ]; then cp $SRC/patch$I.diff $D/patch.diff; cp $SRC/demo$I.py $D/demo.py; cp $SRC/meta$I.json $D/agent_meta.json 2>/dev/null; fi
 W=$(mktemp -d /var/tmp/seed.XXXXXX)
@@ -15,7 +15,7 @@ applies=yes; (cd "$W/repo" && patch -p1 -s --no-backup-if-mismatch < $D/patch.di
 tests=$(cd "$W/repo" && PYTHONPATH="$W/repo/src" PYTHONDONTWRITEBYTECODE=1 /venv/bin/python -m pytest -q -p no:cacheprovider 2>&1 | tail -1)
 PYTHONDONTWRITEBYTECODE=1 /venv/bin/python $D/demo.py "$W/repo" >"$W/demo_mut.log" 2>&1; dm=$?
 PYTHONDONTWRITEBYTECODE=1 /venv/bin/python $D/demo.py "$W/clean" >"$W/demo_clean.log" 2>&1; dc=$?
-echo "SEEDED $PID-$I applies=$applies tests='$tests' demo_with_patch_exit=$dm demo_clean_exit=$dc"
+echo "SEEDED $PID-${AS:-$I} applies=$applies tests='$tests' demo_with_patch_exit=$dm demo_clean_exit=$dc"
 res=""
 for ID in "$@"; do
   VERIF_REPO="$W/repo" VERIF_OUT="$W/out" /venv/bin/python /verif/check.py "$ID" --tier "${TIER:-quick}" >"$W/$ID.log" 2>&1
